@@ -248,6 +248,10 @@ package posix
 // call (for this bucket and path), the size is the file's size (0 for a directory object), the key is the path visited
 // the same for GET and HEAD: the ETag answered is the attribute of this bucket and key read in this call (other calls follow
 // the read, so only its length is compared here; the listing clause below compares every byte)
+// C13: the file opened for the body is handed out open and is the caller's from then on: once it is open, GetObject defers
+// nothing (whatever runs at return would run on a body that has already been answered)
+//@ func (*Posix) GetObject
+//@   at-call? defer:* {C13} [nothing-is-deferred-once-the-body-file-is-open] requires !called("os.Open")
 //@ func (*Posix) GetObject
 //@   let etagRead = result("meta.MetadataStorer.RetrieveAttribute", 0)
 //@   at-return {C01} [the-etag-answered-is-the-one-stored-with-the-object] when err == nil :: ensures called("meta.MetadataStorer.RetrieveAttribute") \
